@@ -19,6 +19,7 @@ type FuncResult struct {
 	EffFree   []string
 	Unsupp    []string
 	Immut     []string
+	EvalErrs  []string
 	Err       string
 	Stale     bool
 	ScriptLen int
@@ -64,10 +65,19 @@ func (w *World) VerifyFunc(ct *Contract) (res *FuncResult) {
 		}
 		fr.bind = append(fr.bind, e.freshVal("fv_"+fv.Name(), fv.Type()))
 	}
+	// a package initialiser runs exactly once: its guard is false at entry
+	if fn.Synthetic == "package initializer" && fn.Pkg != nil {
+		name := "G:" + fn.Pkg.Pkg.Path() + ".init$guard"
+		e.comps.Register(name, "Bool")
+		e.sc.Assert(not(e.Get(entry, name)))
+	}
 	// requires are assumed at entry
 	fr.callN = map[string]int{}
 	for _, rq := range ct.Requires {
 		f := e.evalBool(fr, rq.Expr, entry, entry, rq)
+		if e.evalFailed {
+			continue
+		}
 		e.sc.Assert(f)
 	}
 	rets, out, reach := e.execFunc(fr, entry, "true")
@@ -103,6 +113,7 @@ func (w *World) VerifyFunc(ct *Contract) (res *FuncResult) {
 	res.EffFree = sortedKeys(e.effFree)
 	res.Unsupp = sortedKeys(e.unsupp)
 	res.Immut = sortedKeys(e.immut)
+	res.EvalErrs = e.evalErrs
 	res.ScriptLen = len(e.sc.lines)
 	return res
 }
@@ -185,7 +196,7 @@ func (e *Enc) contractWatch(fr *Frame, cur, old *State) []WatchItem {
 			defer func() {
 				if r := recover(); r != nil {
 					if ee, ok := r.(evalErr); ok {
-						e.w.contractErrors = append(e.w.contractErrors, ee.msg)
+						e.evalErrs = append(e.evalErrs, "watch: "+ee.msg)
 						return
 					}
 					panic(r)
